@@ -10,7 +10,7 @@ go build ./... || { echo "does not build"; git checkout -- .; exit 2; }
 tier="${TIER:-quick}"
 mkdir -p /tmp/mut/eval
 for id in "$@"; do
-  out="/tmp/mut/eval/$(basename $(dirname $patch))-$id.log"
+  out="/tmp/mut/eval/$(basename $(dirname $patch))-$id.log"; mkdir -p /tmp/mut/eval
   VERIF_SCRATCH=/tmp /verif/vcheck "$id" "$tier" > "$out" 2>&1
   rc=$?
   n=$(grep -c '^VIOLATION' "$out")
